@@ -37,6 +37,11 @@ def obligations(tier):
                         '(own convention, the other convention, single separator, sign, fraction), then the slice numeral with symbolic digits: its value is still the number written',
                   bounds='every digit assignment of each C03 shape (quick: every second shape, 3 cultures; thorough: all shapes, 8 cultures) after each of the first requests',
                   encodes=['recognizers_number.number.parsers:BaseNumberParser._get_digital_value', 'recognizers_number.number.parsers:BaseNumberParser.__init__']))
+    obs.append(Ob('O2.5-corpus-orders', 'fn', 'harness.corpus:order_independence', slices=[{'limit': 150, 'orders': [0, -1, 7]} if tier == 'quick' else {'limit': 1000, 'orders': [0, -1, 7, 11, 23]}], timeout=max(t, 600),
+                  descr='order independence over a long varied history (composition check, not a solver verdict): the inputs of 11 model-level Specs files (used only as a pool of realistic queries; '
+                        'the expected outputs of the corpus are not consulted) are recognised in fresh interpreters in 3 (thorough 5) different orders; every query must get the identical result in every order',
+                  bounds='about 1 260 queries (thorough about 4 000) in en-us, fr-fr, es-es, zh-cn over number, ordinal, percentage, currency, dimension and date-time models',
+                  encodes=[T + 'model:ModelFactory.get_model']))
     obs.append(Ob('O2.0-state-inventory', 'fn', 'harness.C02:state_inventory', timeout=t,
                   descr='frame condition (static, not a verdict): every class/module-level mutable container or memo in the recogniser packages is on the reviewed list; a new one makes the run inconclusive',
                   bounds='AST scan of the seven library packages, resource tables excluded'))
